@@ -307,6 +307,29 @@ func c14(r *core.Report) {
 	r.Rule("C14-BORROW-RECV", "no alias of a received message's payload is written or outlives the function it was lent to", 9)
 	ruleBorrowRecv(r, h, newBorrowEngine(p, h), "C14-BORROW-RECV")
 
+	// ---- C14-COLLECTOR-EXCLUSIVE: mbapp hands the collector's own reassembly buffer to the callback;
+	// handlePart runs addPart / isComplete / withBuffer as three separate critical sections and drops the
+	// collector only afterwards, so a second worker that sees the same collector complete must be kept
+	// out until the first callback has returned: the callback runs with the collector's mutex held
+	// (this is the audited exception of NO-CALLBACK-UNDER-LOCK, and here it is REQUIRED)
+	r.Rule("C14-COLLECTOR-EXCLUSIVE", "collector.withBuffer invokes the callback on the collector's buffer while holding the collector's mutex", 1)
+	if wb := needFn(r, "p/mbapp", "collector.withBuffer"); wb != nil {
+		cmu := needField(r, "p/mbapp", "collector", "mu")
+		n := 0
+		for _, in := range core.AllInstrs(wb) {
+			c, ok := in.(*ssa.Call)
+			if !ok || !core.IsParamFuncCall(c.Common()) {
+				continue
+			}
+			n++
+			_, held := L.At[in][cmu.Origin()]
+			r.Check(held, "C14-COLLECTOR-EXCLUSIVE", core.FnName(wb), p.Pos(c.Pos()), "the callback is invoked with collector.mu held", "the reassembly buffer is handed to the callback after collector.mu was released: a second receive worker that finds the same collector complete (duplicate or simultaneous last fragments) delivers the same buffer to another callback while the first still uses it")
+		}
+		if n == 0 {
+			r.Fail("C14-COLLECTOR-EXCLUSIVE: no callback invocation found in collector.withBuffer")
+		}
+	}
+
 	// ---- C14-FREELIST
 	r.Rule("C14-FREELIST", "queue buffers: back to the freelist only after the callback, zeroed; payload rebuilt from length 0 before queueing", 3)
 	{
